@@ -92,9 +92,11 @@ def mc(st, cfg, expect_ok=True, workers=4, timeout=1500):
     return rec
 
 
-def gen(st, cfg, outpath, timeout=1500):
-    """TLC as generator: the '@@' + JSON strings printed by MC_AdmissionGen go to outpath (ndjson)."""
-    rc, out, dt = st.tlc("MC_AdmissionGen", cfg, workers=1, timeout=timeout)
+def gen(st, cfg, outpath, timeout=1500, simulate=0, depth=0):
+    """TLC as generator: the '@@' + JSON strings printed by MC_AdmissionGen go to outpath (ndjson).
+    simulate=N: N random behaviours of the specification (tlc -simulate) instead of the exhaustive enumeration."""
+    extra = ["-simulate", "num=%d" % simulate, "-depth", str(depth), "-seed", str(st.ctx.seed)] if simulate else []
+    rc, out, dt = st.tlc("MC_AdmissionGen", cfg, workers=1, timeout=timeout, extra=extra)
     n = 0
     with open(outpath, "w") as fh:
         for line in out.splitlines():
@@ -147,17 +149,18 @@ def sub_blocklist(ctx, st):
 def sub_queue(ctx, st):
     """internal/addrlist as a bounded priority set."""
     seed = str(ctx.seed)
-    plan = ctx.pick([("MC_AdmissionGen_ops2.cfg", "1,2"), ("MC_AdmissionGen_ops3c.cfg", "1,2")],
-                    [("MC_AdmissionGen_ops3w.cfg", "1,2"), ("MC_AdmissionGen_ops5c.cfg", "2")])
-    for i, (cfg, caps) in enumerate(plan):
+    # (generator config, capacities, number of simulated behaviours or 0 = exhaustive enumeration)
+    plan = ctx.pick([("MC_AdmissionGen_ops2.cfg", "1,2", 0), ("MC_AdmissionGen_ops3c.cfg", "1,2", 0), ("MC_AdmissionGen_sim8.cfg", "2,3", 25)],
+                    [("MC_AdmissionGen_ops3w.cfg", "2", 0), ("MC_AdmissionGen_ops4c.cfg", "1,2,3", 0), ("MC_AdmissionGen_sim12.cfg", "1,2,3", 150)])
+    for i, (cfg, caps, nsim) in enumerate(plan):
         sp = ctx.path("gen_ops%d.ndjson" % i)
-        g = gen(st, cfg, sp)
+        g = gen(st, cfg, sp, simulate=nsim, depth=13)   # every behaviour ends when K operations are reached
         ctx.extra.setdefault("generators", []).append(g)
         p = ctx.path("tr_q_scripts%d.ndjson" % i)
         drive(st, ["-mode", "qscripts", "-in", sp, "-caps", caps, "-seed", seed, "-out", p])
         st.add_trace("queue", "q_scripts%d" % i, p, 1.0)
     p = ctx.path("tr_q_random.ndjson")
-    drive(st, ["-mode", "qrandom", "-seed", seed, "-n", str(ctx.pick(300, 6000)), "-ops", str(ctx.pick(40, 60)), "-out", p])
+    drive(st, ["-mode", "qrandom", "-seed", seed, "-n", str(ctx.pick(300, 3000)), "-ops", str(ctx.pick(40, 60)), "-out", p])
     st.add_trace("queue", "q_random", p, 1.2)
 
 
@@ -259,7 +262,7 @@ def judge_chunk(st, idx, chunk, cfg="Trace_Admission.cfg"):
             starts.append(n)
             fh.writelines(s.lines)
             n += len(s.lines)
-    rc, out, dt = st.tlc("Trace_Admission", cfg, workers=1, trace=path, timeout=3000)
+    rc, out, dt = st.tlc("Trace_Admission", cfg, workers=1, trace=path, timeout=3000, java="-Xmx6g")
     gen_, dist, depth = counts(out)
     m = re.search(r"@@REJECT\s+(\d+)\s+(\d+)", out)
     if m or rc != 0 or "No error has been found" not in out:
@@ -307,6 +310,9 @@ def explain(seg, off, tag):
                 sig += " want=%s ip=%s nrules=%d rules=[%s]" % ("blocked" if want else "free", ipstr(h), len(rules), rtxt)
                 what = "Blocked(%s) = %s but the loaded rules [%s] say %s" % (ipstr(h), a, rtxt, want)
                 break
+    elif e["op"] == "Panic":
+        sig += " in=%s msg=%s" % (e.get("in"), re.sub(r"\d+", "N", str(e.get("msg")))[:120])
+        what = "the real code panics in %s: %s (input %s)" % (e.get("in"), e.get("msg"), json.dumps(e.get("arg"))[:200])
     elif tag.startswith("C18.resolve"):
         sig += " ip=%s port=%d res=%s rules=[%s]" % (ipstr(e["ip"]), e["port"], e["res"], rtxt)
     elif e["op"] in ("Push", "Pop", "Reset"):
@@ -329,7 +335,13 @@ def explain(seg, off, tag):
             sig += " cap=%d bl=%s" % (init["cap"], init["bl"])
             if e["op"] == "Push":
                 sig += " batch=%d len=%d" % (len(e["addrs"]), e["len"])
-    detail = {"init": init, "history": hist[-40:], "rules_in_force": rtxt, "trace": seg.trace["name"]}
+    # replay material: the whole history if it is short, otherwise from the last accepted Reload on
+    # (the blocklist state depends on nothing earlier; long histories only occur in blocklist traces)
+    h = hist
+    if len(h) > 400:
+        k = max([i for i, x in enumerate(h[:-1]) if x["op"] == "Reload" and not x["err"]] or [len(h) - 40])
+        h = h[k:]
+    detail = {"init": init, "history": h, "rules_in_force": rtxt, "trace": seg.trace["name"]}
     return sig, what, detail
 
 
@@ -466,6 +478,27 @@ def queue_situations(ctx, st):
             vlib.log("note: situation %s did not occur in the random histories of this seed" % k)
 
 
+def replay(ctx, st):
+    """./check C18 --replay <file>: re-execute the recorded history on the real code and judge it again."""
+    rp = json.load(open(ctx.replay))
+    d = rp["detail"]
+    src = ctx.path("replay_in.ndjson")
+    vlib.write_ndjson(src, [d["init"]] + d["history"])
+    p = ctx.path("tr_replay.ndjson")
+    drive(st, ["-mode", "replay", "-in", src, "-out", p])
+    st.add_trace("replay", "replay", p, 1.0)
+    segs = segments(ctx, st)
+    viols, dist, gen_, dt, n = judge_chunk(st, 0, {"w": 0, "segs": segs})
+    ctx.cov["traces_validated_against_impl"] += len(segs)
+    vlib.log("replay: %d events re-executed, %d failed obligations" % (n, len(viols)))
+    seen = set()
+    for seg, off, tag in viols:
+        sig, what, detail = explain(seg, off, tag)
+        if sig not in seen:
+            seen.add(sig)
+            ctx.violation(tag, sig, what, detail)
+
+
 def run(ctx):
     ctx.level = "model_checking"
     ctx.cov["rule"] = ("a case is one recorded trace of the real code (one blocklist object with its sequence of Reload/Blocked/Resolve calls, "
@@ -481,6 +514,9 @@ def run(ctx):
     st = St(ctx)
     try:
         st.drv = ctx.build_go("c18")
+        if getattr(ctx, "replay", None):
+            replay(ctx, st)
+            return
         only = [x for x in os.environ.get("VERIF_C18_SUBS", "").split(",") if x]    # development aid: e.g. blocklist,queue
         for sub in SUBCHECKS:
             if not only or sub.__name__[4:] in only:
